@@ -457,7 +457,13 @@ fn after_dispatch(sim: &Rc<Sim>, t: Timeout, ok: bool, err: Option<String>, t_st
     if !ok {
         sim.st.borrow_mut().dispatch_error_seen = true;
         sim.st.borrow_mut().any_dispatch_error = true;
-        if !expected_err {
+        // a source an injected fault left half (un)registered was processed in this dispatch:
+        // its own re-registration may fail for that reason
+        let half = sim.st.borrow().srcs.values().any(|s| s.indeterminate && s.pe_this_dispatch > 0);
+        if half && !expected_err {
+            sim.probe("dispatch_err_after_fault_on_source");
+        }
+        if !expected_err && !half {
             let comp_retired = sim.st.borrow().srcs.values().any(|s| matches!(&s.k, K::Comp(k) if k.child_retired) && s.pe_this_dispatch > 0);
             sim.violate(
                 "dispatch.unexpected_error",
@@ -767,7 +773,7 @@ fn compute_must(sim: &Sim) {
                 }
             }
             K::Life(l) => {
-                if l.pending || l.synth_returned {
+                if l.pending || l.pending2 || l.synth_returned {
                     must.insert(*id, Must::Callback);
                 }
             }
@@ -826,6 +832,7 @@ pub fn batch_hook(sim: &Sim, events: &mut Vec<BatchEvent>, n_fd: usize) {
         }
         match id {
             None if st.adapter_keys.get(&e.key).and_then(|a| st.adapters.get(a)).map(|a| matches!(a.state, crate::adapter::AdState::Held | crate::adapter::AdState::InTask(_))).unwrap_or(false) => {}
+            None if st.leaked_keys.contains(&e.key) => {}
             None => {
                 // an fd event whose key belongs to no live registration
                 if !st.srcs.values().any(|s| s.indeterminate) && st.adapters_indeterminate == 0 {
